@@ -66,6 +66,41 @@ def inline_lets(expr, scope_text, depth=0):
     return re.sub(r"(?<![\w.])[A-Za-z_]\w*(?!\s*\.)(?![\w(])", repl, expr)
 
 
+def fn_bodies(text):
+    """name -> body text of every fn item of a source file (brace matching; good enough for rustfmt'ed code)"""
+    out = {}
+    for m in re.finditer(r"\bfn (\w+)\s*(?:<[^{;]*?>)?\s*\(", text):
+        i = text.find("{", m.end())
+        semi = text.find(";", m.end())
+        if i < 0 or (0 <= semi < i and "where" not in text[m.end():i]):
+            continue
+        depth, j = 0, i
+        while j < len(text):
+            c = text[j]
+            if c == "{":
+                depth += 1
+            elif c == "}":
+                depth -= 1
+                if depth == 0:
+                    break
+            j += 1
+        out[m.group(1)] = text[i + 1:j]
+    return out
+
+
+def expand_calls(body, bodies, skip=(), depth=3):
+    """textually inline the bodies of the file's own functions at their call sites (so that a step extracted into a
+    helper is still found, at the position where it runs); calls keep their text, the body follows in a block"""
+    if depth == 0:
+        return body
+    def repl(m):
+        name = m.group(1)
+        if name in bodies and name not in skip and not body[max(0, m.start() - 3):m.start()].endswith("fn "):
+            return m.group(0) + "/*inlined " + name + "*/{" + expand_calls(bodies[name], bodies, tuple(skip) + (name,), depth - 1) + "}/*end*/("
+        return m.group(0)
+    return re.sub(r"\b(\w+)\s*\(", lambda m: repl(m) if m.group(1) in bodies else m.group(0), body)
+
+
 def bool_expr(rust, fields):
     """`opts.force_create || opts.seed_output`, `!opts.force_create && !(a || b)`, `true`
     -> Gallina bool term over record projections given in fields (name -> coq projection)."""
@@ -315,7 +350,7 @@ def gen(snapshot=None):
     def _sec_cloneflags(w, facts, ctx):
         # ---- command flag expressions ------------------------------------------------------
         cl = src("src/clone_cmd.rs")
-        blk = need(r"let mut output_file = tokio::fs::OpenOptions::new\(\)(.*?)\.open\(&opts\.output\)", cl,
+        blk = need(r"OpenOptions::new\(\)((?:(?!OpenOptions::new)[^;])*?)\.open\(&opts\.output\)", strip_comments(cl),
                    "clone output OpenOptions").group(1)
         cfields = {"force_create": "c_force_create", "seed_output": "c_seed_output", "verify_output": "c_verify_output"}
         fl = open_options(blk, cfields, cl)
@@ -324,14 +359,18 @@ def gen(snapshot=None):
         for k in ("write", "read", "create", "create_new", "truncate", "append"):
             w(f"Definition clone_open_{k} (o : clone_flags) : bool := {fl.get(k, 'false')}.")
         cm = src("src/compress_cmd.rs")
-        blk = need(r"let mut output_file = std::fs::OpenOptions::new\(\)(.*?)\.open\(&opts\.output\)", cm,
+        cm = strip_comments(cm)
+        blk = need(r"OpenOptions::new\(\)((?:(?!OpenOptions::new)[^;])*?)\.open\(&opts\.output\)", cm,
                    "compress output OpenOptions").group(1)
         fl = open_options(blk, {"force_create": "z_force_create"}, cm)
         w("Record compress_flags := { z_force_create : bool }.")
         for k in ("write", "read", "create", "create_new", "truncate", "append"):
             w(f"Definition compress_open_{k} (o : compress_flags) : bool := {fl.get(k, 'false')}.")
-        blk = need(r"let mut temp_file = OpenOptions::new\(\)(.*?)\.open\(temp_file_path\)", cm,
-                   "compress temp OpenOptions").group(1)
+        # the other OpenOptions of the file: the temporary chunk file (whatever the path expression is called)
+        chains = [c for c in re.findall(r"OpenOptions::new\(\)((?:(?!OpenOptions::new)[^;])*?)\.open\(([^)]*)\)", cm) if "opts.output" not in c[1]]
+        if len(chains) != 1:
+            raise TranslateError(f"compress temp OpenOptions: expected one OpenOptions besides the output's, found {len(chains)}")
+        blk = chains[0][0]
         fl = open_options(blk, {})
         for k in ("write", "read", "create", "create_new", "truncate", "append"):
             w(f"Definition temp_open_{k} : bool := {fl.get(k, 'false')}.")
@@ -341,7 +380,12 @@ def gen(snapshot=None):
     def _sec_clonesteps(w, facts, ctx):
         cl = src("src/clone_cmd.rs")
         # ---- order of effectful steps of clone_archive --------------------------------------
-        body = need(r"async fn clone_archive<R>\(opts: Options, reader: R\)(.*?)\n}\n", cl, "clone_archive body").group(1)
+        cl = strip_comments(cl)
+        bodies = fn_bodies(cl)
+        if "clone_archive" not in bodies:
+            raise TranslateError("anchor not found: clone_archive body")
+        # helpers of the same file are inlined at their call sites, so that a step moved into a helper is still seen where it runs
+        body = expand_calls(bodies["clone_archive"], bodies, ("clone_archive",))
         steps = [
             ("TryInit", r"Archive::try_init\("),
             ("PrintArchive", r"print_archive\("),
@@ -370,7 +414,10 @@ def gen(snapshot=None):
         need(r"if !output_is_block_dev \{[^}]*\.set_len\(", body, "set_len guarded by !output_is_block_dev")
         w("Definition set_len_only_regular : bool := true.")
         # seek to start before scanning the output (F3 repair): present?
-        scan_region = body[body.find("is_block_dev(&output_file)"):body.find("chunk_index_from_readable(")]
+        m1, m2 = re.search(r"\bis_block_dev\b", body), re.search(r"\bchunk_index_from_readable\b", body)
+        if not m1 or not m2 or m2.start() < m1.start():
+            raise TranslateError("anchor not found: block device test before the scan of the output")
+        scan_region = body[m1.start():m2.start()]
         fs_fn = need(r"async fn file_size\(file: &mut File\)(.*?)\n}\n", cl, "file_size").group(1)
         rewinds = bool(re.search(r"seek\(SeekFrom::Start\(0\)\)|rewind\(\)", scan_region)) or \
             bool(re.search(r"SeekFrom::End\(0\)\)\.await\?;.*SeekFrom::Start\(0\)", fs_fn, re.S))
@@ -378,11 +425,14 @@ def gen(snapshot=None):
         facts["blockdev_rewinds_before_scan"] = rewinds
 
         # the output file is flushed (last write awaited, its error reported) before set_len / success
-        tail = body[body.find("output.into_inner()"):]
+        mt = re.search(r"\.into_inner\(\)", body)
+        if not mt:
+            raise TranslateError("anchor not found: CloneOutput::into_inner before the output is finished")
+        tail = body[mt.start():]
         pre_setlen = tail[:tail.find(".set_len(")] if ".set_len(" in tail else tail
         # (only flush/shutdown return a stashed write error: tokio's sync_all/sync_data/set_len wait for the write in
         #  flight but keep its error for a later call -- Model/OutFile.v)
-        flushes = bool(re.search(r"output_file\s*\.(flush|shutdown)\(\)\s*\.await", pre_setlen))
+        flushes = bool(re.search(r"\w*file\w*\s*\.(flush|shutdown)\(\)\s*\.await", pre_setlen))
         w(f"Definition clone_flushes_output : bool := {'true' if flushes else 'false'}.")
         facts["clone_flushes_output"] = flushes
         # the clone command removes, renames, links or copies no file, and opens files for writing only through the one
@@ -399,15 +449,19 @@ def gen(snapshot=None):
     def _sec_compresssteps(w, facts, ctx):
         cm = src("src/compress_cmd.rs")
         # ---- order of effectful steps of compress_cmd -----------------------------------------
-        cbody = need(r"pub async fn compress_cmd\(opts: Options\)(.*?)\n}\n", cm, "compress_cmd body").group(1)
+        cm = strip_comments(cm)
+        cbodies = fn_bodies(cm)
+        if "compress_cmd" not in cbodies:
+            raise TranslateError("anchor not found: compress_cmd body")
+        cbody = expand_calls(cbodies["compress_cmd"], cbodies, ("compress_cmd",))
         csteps = [
-            ("ZOpenOutput", r"std::fs::OpenOptions::new\(\)"),
+            ("ZOpenOutput", r"OpenOptions::new\(\)[^;]*?\.open\(&opts\.output\)"),
             ("ZChunkInput", r"chunk_input\("),
-            ("ZBuildHeader", r"bitar::header::build\("),
-            ("ZWriteHeader", r"output_file\.write_all\(&header_buf\)"),
-            ("ZCopyTemp", r"std::io::copy\(&mut temp_file, &mut output_file\)"),
-            ("ZRemoveTemp", r"std::fs::remove_file\(&opts\.temp_file\)"),
-            ("ZPrintInfo", r"info_cmd::print_archive_reader\("),
+            ("ZBuildHeader", r"header::build\("),
+            ("ZWriteHeader", r"output_file\s*\.write_all\(&header"),
+            ("ZCopyTemp", r"io::copy\(&mut temp_file,"),
+            ("ZRemoveTemp", r"remove_file\(&opts\.temp_file\)"),
+            ("ZPrintInfo", r"print_archive_reader\("),
         ]
         pos = []
         for tag, pat in csteps:
@@ -426,7 +480,10 @@ def gen(snapshot=None):
         # ---- --verify-header: the condition under which the clone is refused, as a boolean term over what the
         # two comparisons in it observe (HashSum equality compares the common prefix only). The check may be
         # written inline in clone_archive or in a helper taking (expected, actual). ---------------------------
-        body = need(r"async fn clone_archive<R>\(opts: Options, reader: R\)(.*?)\n}\n", cl, "clone_archive body").group(1)
+        pb = fn_bodies(cl)
+        if "clone_archive" not in pb:
+            raise TranslateError("anchor not found: clone_archive body")
+        body = pb["clone_archive"]
         bind = need(r"if let Some\((?:ref )?(\w+)\) = &?opts\.header_checksum", body, "binding of the expected header checksum")
         exp_name = bind.group(1)
         m = re.search(r"if ([^{}]*?)\{\s*return Err\(anyhow!\(\"Header checksum mismatch\"\)\);", cl, re.S)
@@ -470,8 +527,13 @@ def gen(snapshot=None):
                 raise TranslateError(f"no concurrent stream stage found in {what}")
             return combos
         lib = src("bitar/src/api/compress.rs")
-        lib_fn = need(r"pub async fn create_archive<(.*?)\n}\n", lib, "create_archive body").group(1)
-        cli_fn = need(r"async fn chunk_input<T>\((.*?)\n}\n", cm, "chunk_input body").group(1)
+        lib = strip_comments(lib)
+        cm = strip_comments(cm)
+        lb, cb = fn_bodies(lib), fn_bodies(cm)
+        if "create_archive" not in lb or "chunk_input" not in cb:
+            raise TranslateError("anchor not found: create_archive / chunk_input body")
+        lib_fn = expand_calls(lb["create_archive"], lb, ("create_archive",))
+        cli_fn = expand_calls(cb["chunk_input"], cb, ("chunk_input",))
         allst = {"lib_writer": stages(lib_fn, "create_archive"), "cli_writer": stages(cli_fn, "chunk_input"),
                  "clone_feeders": stages(cl, "clone_cmd.rs")}
         for k, v in allst.items():
@@ -488,10 +550,16 @@ def gen(snapshot=None):
                 raise TranslateError(f"concurrency construct `{m.group(0)}` in {name} is not covered by the pipeline model")
         w("Definition only_ordered_stage_concurrency : bool := true.")
         # flush/seek between last temp write and reopen of the temp file (F4)
-        after_loop = cli_fn[cli_fn.rfind(".write_all(use_data)"):]
+        last_w = [m.start() for m in re.finditer(r"temp_file\s*\.write_all\(", cli_fn)]
+        if not last_w:
+            raise TranslateError("anchor not found: write of chunk data to the temp file in chunk_input")
+        after_loop = cli_fn[last_w[-1]:]
         cli_flush = bool(re.search(r"temp_file\s*\.(flush|sync_all|sync_data|shutdown|rewind|seek)\(", after_loop))
         w(f"Definition cli_writer_flushes_temp : bool := {'true' if cli_flush else 'false'}.")
-        after = lib_fn[lib_fn.rfind(".write_all(use_data)"):]
+        last_w = [m.start() for m in re.finditer(r"temp_file\s*\.write_all\(", lib_fn)]
+        if not last_w:
+            raise TranslateError("anchor not found: write of chunk data to the temp file in create_archive")
+        after = lib_fn[last_w[-1]:]
         lib_flush = bool(re.search(r"temp_file\s*\.(flush|sync_all|rewind|seek)\(", after))
         w(f"Definition lib_writer_flushes_temp : bool := {'true' if lib_flush else 'false'}.")
         facts["cli_writer_flushes_temp"] = cli_flush
